@@ -22,6 +22,7 @@ struct C01Call
 struct C01Plan
 {
   int init_threads;
+  int lazy_teardown;   // internal back end used without initialisation: the scheduler it created on first use is replaced at the end
   int ncalls;
   C01Call calls[C01_MAXCALLS];
 };
